@@ -1521,7 +1521,7 @@ func genFCase(r *vh.RNG) fcase {
 // real gRPC client.  Runs in a child process: if a panic escaped the interceptors the process would die, and that
 // must be an observation, not the end of the check.
 
-func wireAnswer(c tcase) (req, impl string) {
+func wireAnswer(c tcase) (req, impl, exp string) {
 	useShuffle(c.shuf)
 	ca := -1
 	if hasStall(c) {
@@ -1535,7 +1535,7 @@ func wireAnswer(c tcase) (req, impl string) {
 	conn, err := grpc.NewClient("passthrough:///bufnet", grpc.WithContextDialer(func(ctx context.Context, _ string) (net.Conn, error) { return lis.DialContext(ctx) }),
 		grpc.WithTransportCredentials(insecure.NewCredentials()))
 	if err != nil {
-		return "", "dial-error " + err.Error()
+		return "", "dial-error " + err.Error(), "-"
 	}
 	defer conn.Close()
 	cl := seqproxyapi.NewSeqProxyApiClient(conn)
@@ -1595,7 +1595,34 @@ func wireAnswer(c tcase) (req, impl string) {
 			impl = "complexsearch-differs search=[" + impl + "] complex=[" + cimpl + "]"
 		}
 	}
-	return req, impl
+	// the streaming side (RecoverStreamInterceptor): Export over the wire, newest first
+	exp = "-"
+	if !hasStall(c) && !c.rev && (c.off >= 1<<62 || twoUnknown(c) || len(c.String())%4 == 0) { // the panicking cases and a sample
+		_, si3, _ := buildCase(c)
+		srv3 := proxyapi.VerifNewGRPCServerC16(si3, 20*time.Second)
+		lis3 := bufconn.Listen(1 << 20)
+		go func() { _ = srv3.Serve(lis3) }()
+		defer srv3.Stop()
+		conn3, err := grpc.NewClient("passthrough:///bufnet", grpc.WithContextDialer(func(ctx context.Context, _ string) (net.Conn, error) { return lis3.DialContext(ctx) }),
+			grpc.WithTransportCredentials(insecure.NewCredentials()))
+		if err == nil {
+			defer conn3.Close()
+			st, err := seqproxyapi.NewSeqProxyApiClient(conn3).Export(ctx, &seqproxyapi.ExportRequest{Query: q, Size: int64(c.size), Offset: int64(c.off)})
+			n := 0
+			for err == nil {
+				_, err = st.Recv()
+				if err == nil {
+					n++
+				}
+			}
+			if err == io.EOF {
+				exp = fmt.Sprintf("export=ok docs=%d", n)
+			} else {
+				exp = fmt.Sprintf("export=err %s docs=%d", status.Code(err), n)
+			}
+		}
+	}
+	return req, impl, exp
 }
 
 func wireChild() {
@@ -1609,14 +1636,14 @@ func wireChild() {
 		if err != nil {
 			continue
 		}
-		req, impl := wireAnswer(c)
-		fmt.Fprintf(out, "%s\t%s\n", req, impl)
+		req, impl, exp := wireAnswer(c)
+		fmt.Fprintf(out, "%s\t%s\t%s\n", req, impl, exp)
 		out.Flush()
 	}
 }
 
 // runWire sends the cases to a child process; died = the child did not answer every case
-func runWire(cases []tcase) (reqs, impls []string, died bool, detail string) {
+func runWire(cases []tcase) (reqs, impls, exps []string, died bool, detail string) {
 	var in bytes.Buffer
 	for _, c := range cases {
 		in.WriteString(c.String() + "\n")
@@ -1630,9 +1657,9 @@ func runWire(cases []tcase) (reqs, impls []string, died bool, detail string) {
 	cmd.Stderr = &errb
 	outb, err := cmd.Output()
 	for _, l := range strings.Split(strings.TrimSpace(string(outb)), "\n") {
-		p := strings.SplitN(l, "\t", 2)
-		if len(p) == 2 {
-			reqs, impls = append(reqs, p[0]), append(impls, p[1])
+		p := strings.SplitN(l, "\t", 3)
+		if len(p) == 3 {
+			reqs, impls, exps = append(reqs, p[0]), append(impls, p[1]), append(exps, p[2])
 		}
 	}
 	if err != nil || len(reqs) != len(cases) {
@@ -1640,9 +1667,20 @@ func runWire(cases []tcase) (reqs, impls []string, died bool, detail string) {
 		if len(tail) > 600 {
 			tail = tail[len(tail)-600:]
 		}
-		return reqs, impls, true, fmt.Sprintf("child answered %d of %d cases: %v; stderr tail: %s", len(reqs), len(cases), err, tail)
+		return reqs, impls, exps, true, fmt.Sprintf("child answered %d of %d cases: %v; stderr tail: %s", len(reqs), len(cases), err, tail)
 	}
-	return reqs, impls, false, ""
+	return reqs, impls, exps, false, ""
+}
+
+// twoUnknown: two stores put an unrequested document at the head of their fetch streams (the merger panics)
+func twoUnknown(c tcase) bool {
+	n := 0
+	for _, ops := range c.fb {
+		if strings.Contains(ops, "x0") {
+			n++
+		}
+	}
+	return n >= 2
 }
 
 const stallTimeout = 250 * time.Millisecond
@@ -2136,6 +2174,13 @@ func smallCases(r *vh.RNG, thorough bool) []tcase {
 		}
 		res = append(res, tcase{hot: [][]call{a, b}, size: 6, fetch: true, wh: -1, wc: -1, fb: map[string]string{"h0_0": "S2", "h1_0": "m0"}})
 	}
+	// two stores deliver an unrequested document first: the merged fetch stream compares two unknown IDs and panics
+	// (DESIGN section 7, not a defect: the recover interceptor must turn it into an error)
+	for _, hint := range []int{0, 7} {
+		a := []call{{kind: 'r', code: 'n', total: 2, ids: []id2{{40, 1}, {30, 1}}}}
+		b := []call{{kind: 'r', code: 'n', total: 2, ids: []id2{{35, 2}, {25, 2}}}}
+		res = append(res, tcase{hot: [][]call{a, b}, size: 4, hint: hint, fetch: true, wh: -1, wc: -1, fb: map[string]string{"h0_0": "x0", "h1_0": "x0"}})
+	}
 	// Offset+Size at and beyond the int range: the sum wraps for MaxInt64+1 ... (MergeQPRs panics), not for 2^62+...
 	for _, off := range []int{math.MaxInt64, math.MaxInt64 - 1, 1 << 62} {
 		for _, size := range []int{1, 2, math.MaxInt32} {
@@ -2342,15 +2387,29 @@ func main() {
 		chWire := vh.NewChannel("wire", "real gRPC server of the proxy (initServer: recover / log / pool interceptors) + real gRPC client over bufconn, Search and ComplexSearch, in a child process, vs SV.ProxyRead.api with a panic rendered as codes.Internal (the recover interceptor): Offset in {MaxInt64, MaxInt64-1, 2^62} x Size in {1, 2, MaxInt32} over answering / partial / failing / wants-old-data topologies, plus a seeded sample; non-trivial = the request does not succeed completely")
 		var wcases []tcase
 		for _, c := range cases {
-			big := c.off >= 1<<62 || hasStall(c)
+			big := c.off >= 1<<62 || hasStall(c) || twoUnknown(c)
 			if big || (len(wcases) < o.Pick(150, 600) && !sharedIDs(c.hot) && !sharedIDs(c.cold) && len(c.shuf) == 0) {
 				wcases = append(wcases, c)
 			}
 		}
-		reqs, impls, died, detail := runWire(wcases)
+		reqs, impls, exps, died, detail := runWire(wcases)
 		for i := range reqs {
-			if strings.Contains(reqs[i], "999.9") { // unrequested documents: the map order may decide, as in the api channel
-				continue
+			// a handler that panics in-process must reach the client as an error status, never as a (necessarily empty) success:
+			// the recover interceptors of the real server sit in between
+			if c := wcases[i]; !hasStall(c) {
+				useShuffle(c.shuf)
+				if inproc, _ := runAPI(c); inproc == "panic" && strings.HasPrefix(impls[i], "ok") {
+					rep.Violate(vh.Violation{Site: "network/grpcutil/interceptors.go:RecoverUnaryInterceptor", Class: "panic-delivered-as-success", What: "the Search handler panics on this request, yet over the proxy's gRPC server the client receives a successful response: " + impls[i], Replay: []string{c.String()}})
+				}
+				if !c.rev {
+					if inprocX, _, _, _ := runExport(c); inprocX == "panic" && strings.HasPrefix(exps[i], "export=ok") {
+						rep.Violate(vh.Violation{Site: "network/grpcutil/interceptors.go:RecoverStreamInterceptor", Class: "panic-delivered-as-success", What: "the Export handler panics on this request, yet over the proxy's gRPC server the stream ends with status OK: " + exps[i], Replay: []string{c.String()}})
+					}
+				}
+				useShuffle(nil)
+			}
+			if strings.Contains(reqs[i], "999.9") || sharedIDs(wcases[i].hot) || sharedIDs(wcases[i].cold) {
+				continue // unrequested documents / an ID held by two shards: map order or the unstable sort may decide, as in the api channel
 			}
 			chWire.Add(reqs[i], impls[i], !strings.HasPrefix(impls[i], "ok partial=0"), "answer="+strings.Join(strings.Fields(impls[i])[:min(2, len(strings.Fields(impls[i])))], "-"))
 			if strings.HasPrefix(impls[i], "complexsearch-differs") {
